@@ -4,7 +4,7 @@ import templates_c11
 
 RULE = ("engine A: (valid side, metamorphic twin) dyndep templates -- file existing as a source, produced by a clean or dirty "
         "statement, adding implicit inputs, implicit outputs, restat; shared by two statements; chained two levels -- driven "
-        "through every history of depth <= 3/4 over {edit inputs, touch/delete the dyndep file and its source, delete "
+        "through every history of depth <= 6/7 over {edit inputs, touch/delete the dyndep file and its source, delete "
         "outputs} and ninja (default and single target) under every schedule, in lock step with the twin whose manifest has "
         "the same information written in: same started sets and success, every statement starts after the producers of its "
         "dyndep-supplied inputs, final state equals the clean build. (invalid side) every dyndep file obtained from a valid "
